@@ -135,13 +135,25 @@ class Pool:
             t.snap = fp_any(t.obj)
 
     # ------------------------------------------------------------------ semantic check of an RDMs slot
+    def tables_for(self, sem):
+        """reference tables for one object: where its grouping labels were re-assigned by the user (a renaming of the
+        groups, sem['remap']), the expected labels follow"""
+        rdm_tab, pat_tab, nan_cells = self.tables
+        remap = (sem or {}).get('remap')
+        if remap:
+            def _re(tab, axis):
+                return {u: {k: (remap[(axis, k)].get(norm(v), v) if (axis, k) in remap else v) for k, v in dd.items()}
+                        for u, dd in tab.items()}
+            rdm_tab, pat_tab = _re(rdm_tab, 'rdm'), _re(pat_tab, 'pattern')
+        return rdm_tab, pat_tab, nan_cells
+
     def check_rdms(self, slot, opname, order=('seq', 'seq'), prop='C10', ignore_pdesc=False):
         """compare the object with its semantic twin. order per axis: 'seq' or 'multiset'"""
         sem = slot.sem
         if sem is None:
             return
         obj = slot.obj
-        rdm_tab, pat_tab, nan_cells = self.tables
+        rdm_tab, pat_tab, nan_cells = self.tables_for(sem)
         try:
             ru, cu = uid_seqs(obj)
         except KeyError as e:
